@@ -28,6 +28,34 @@ def _feeds_adj_rib_in(prog, key):
     return bool(prog.reachable([key]) & tgt)
 
 
+def check_fold(prog, r):
+    """bmp::apply_snapshot folds snapshot entries and the live events queued behind them; a later announcement must
+    overwrite the earlier one (HashMap::insert), a withdrawal must remove the key.  `entry().or_insert*` would keep the
+    first event, i.e. state the RIB no longer holds."""
+    k = prog.find(r"rustybgpd::bmp::apply_snapshot")
+    if len(k) != 1:
+        r.unanalysable("bmp::apply_snapshot anchor matched %d" % len(k))
+        return
+    fv = view(prog, k[0])
+    r.analysed(fv.name)
+    ins = [b for b, t in fv.calls(re.compile(r".*HashMap::<K, V, S(, A)?>::insert$")) if "AdjRibInChange" in t["f"].get("ga", "")]
+    keep_first = [b for b, t in fv.calls(re.compile(r".*(Entry|VacantEntry)::<.*>::(or_insert|or_insert_with|or_insert_with_key)$")) if "AdjRibInChange" in t["f"].get("ga", "") and "HashMap" not in t["f"].get("ga", "").split(",")[-1]]
+    rem = [b for b, t in fv.calls(re.compile(r".*HashMap::<K, V, S(, A)?>::remove$")) if "AdjRibInChange" in t["f"].get("ga", "")]
+    # the per-peer map itself is created with entry().or_default(): that is about the outer map, not the routes
+    route_keep_first = []
+    for b, t in fv.calls(re.compile(r".*Entry::<.*>::(or_insert|or_insert_with)$")):
+        ga = t["f"].get("ga", "")
+        if "PathNlri" in ga.split("AdjRibInChange")[0]:
+            route_keep_first.append(b)
+    if route_keep_first:
+        r.fail(fv.name, "fold-keeps-first", "apply_snapshot stores a route with entry().or_insert*: when the same route is announced again before the fold is flushed the earlier attributes win, "
+               "and the subscriber is sent state the RIB no longer holds", fv.loc(route_keep_first[0]))
+    elif ins and rem:
+        r.ok("apply_snapshot: announcements overwrite (HashMap::insert), withdrawals remove")
+    else:
+        r.fail(fv.name, "fold-shape", "apply_snapshot: %d overwriting insert(s), %d removal(s) of route entries" % (len(ins), len(rem)), fv.loc())
+
+
 def run(prog, rep, tier):
     r1 = rep.rule("R18.1", "subscriber-list loads that feed Adj-RIB-In events happen inside the shard critical section")
     n_feed = 0
@@ -143,6 +171,8 @@ def run(prog, rep, tier):
             elif kind not in ann:
                 r3.ok("insert_route: no %s-policy announcement precedes Table::insert" % kind)
 
+    r5 = rep.rule("R18.5", "the subscriber-side fold keeps the last event per (peer, family, prefix, path id)")
+    check_fold(prog, r5)
     r4 = rep.rule("R18.4", "BMP PeerDown is sent only for peers whose PeerUp was sent")
     n = 0
     spd = prog.one(r"rustybgpd::bmp::send_peer_down")
